@@ -203,18 +203,20 @@ def run(tier, seed):
     os.environ.pop("XDG_CONFIG_HOME", None)
     os.environ.pop("MLRRC", None)
     cov = {"tlc_runs": [], "samples": []}
-    consts = {"MaxFields": 2, "Big": "TRUE" if thorough else "FALSE", "MaxLen": 2}
+    consts = {"MaxFields": 2, "NumKeys": 3, "NumScalars": 2, "MaxLen": 2}
+    # the nested spaces: (keys, scalars) -- quick: a,1,2 x "",x (43 692 records); thorough: a,b,1,2 x "",x and a,1,2 x "",x,7
+    spaces = [(4, 2), (3, 3)] if thorough else [(3, 2)]
     workers = int(os.environ.get("VERIF_TLC_WORKERS", "0") or 0) or min(8, vlib.NPROC)
     states = transitions = 0
 
     # ---- 1. laws on the specification, and case generation, side by side ---------------------------------------
-    def laws(space, invs, slices):
-        c = dict(consts, Space='"%s"' % space, Slices=slices)
+    def laws(space, invs, slices, nk=3, ns=2):
+        c = dict(consts, Space='"%s"' % space, Slices=slices, NumKeys=nk, NumScalars=ns)
         r = b3.check_laws("ConvertMC", c, invariants=invs, timeout=3000, workers=workers if slices > 1 else 1)
         return space, invs, r
 
-    def gen(family, maxlen=None):
-        c = dict(consts, Family='"%s"' % family, Slices=16)
+    def gen(family, maxlen=None, nk=3, ns=2):
+        c = dict(consts, Family='"%s"' % family, Slices=16, NumKeys=nk, NumScalars=ns)
         if maxlen is not None:
             c["MaxLen"] = maxlen
         printed, r = b3.gen_cases("ConvertGen", c, timeout=3000, workers=workers)
@@ -225,11 +227,12 @@ def run(tier, seed):
     jobs = []
     if full:
         jobs += [(laws, ("table", ("TableLaws", "Injective", "NeedsSepFree"), 1)),
-                 (laws, ("nested", ("Laws",), 16)), (laws, ("sepkeys", ("Laws",), 16)), (laws, ("paths", ("Laws", "AllPathLaws"), 16))]
+                 (laws, ("sepkeys", ("Laws",), 16)), (laws, ("paths", ("Laws", "AllPathLaws"), 16))]
+        jobs += [(laws, ("nested", ("Laws",), 16, nk, ns)) for nk, ns in spaces]
     if "flags" in parts:
         jobs += [(gen, ("flags",))]
     if "nested" in parts:
-        jobs += [(gen, ("nested",)), (gen, ("sepkeys",))]
+        jobs += [(gen, ("nested", None, nk, ns)) for nk, ns in spaces] + [(gen, ("sepkeys",))]
     if "flat" in parts:
         jobs += [(gen, ("pairs",)), (gen, ("triples", 2 if thorough else 1))]
     fam = {}
@@ -245,8 +248,9 @@ def run(tier, seed):
                 transitions += r.generated
             else:
                 family, printed, r = res
-                fam[family] = [x for x in printed if isinstance(x, dict)]
-                cov["tlc_runs"].append({"module": "ConvertGen", "family": family, "cases": len(fam[family]), "wall_s": round(r.wall, 1)})
+                got = [x for x in printed if isinstance(x, dict)]
+                fam[family] = fam.get(family, []) + got
+                cov["tlc_runs"].append({"module": "ConvertGen", "family": family, "cases": len(got), "wall_s": round(r.wall, 1)})
                 states += r.distinct
                 transitions += r.generated
     vlib.log("[c02] laws and generation done at %.0fs: %s" % (time.time() - t0, {k: len(v) for k, v in fam.items()}))
@@ -278,7 +282,7 @@ def run(tier, seed):
 
     nested = fam["nested"] + fam["sepkeys"]
     rnd.shuffle(nested)
-    passes = 3 if thorough else 1
+    passes = 1
     bsize = 200
     for ps in range(passes):
         if thorough:
@@ -327,11 +331,11 @@ def run(tier, seed):
     rnd.shuffle(pairs)
     rnd.shuffle(triples)
     if not thorough:
-        pairs, triples = pairs[:3000], triples[:800]
+        pairs, triples = pairs[:2400], triples[:600]
     else:
-        triples = triples[:60000]
+        pairs, triples = pairs[:40000], triples[:15000]
     for c in pairs + triples:
-        add_path(c["path"], c["sep"], c["noun"], c["s"], render(c["path"][0], c["s"]), "flat")
+        add_path(c["path"], c["sep"], c["noun"], c["s"], render(c["path"][0], c["s"], num=len(cases) % 2 == 0), "flat")
 
     # ---- 4. the flag table: phase one runs every entry and its expansion ----------------------------------------------
     flags = fam["flags"]
